@@ -426,6 +426,23 @@ func (m *C15Mon) Wait(h *Hand, s *pokerface.GameState) {
 				return
 			}
 		}
+		// what a consumer in the same process can reach: redacted slices must not keep the hidden cards
+		// in their backing arrays (re-slicing to capacity)
+		lists := [][]string{cl.Meta.Deck, cl.Status.Burned, cl.Status.Board}
+		for _, p := range cl.Players {
+			lists = append(lists, p.HoleCards)
+			if p.Combination != nil {
+				lists = append(lists, p.Combination.Cards)
+			}
+		}
+		for _, l := range lists {
+			for _, x := range l[:cap(l)] {
+				if len(x) == 2 && !allowed[x] && cardRe.MatchString(`"`+x+`"`) {
+					h.Fail("C15/leak-in-backing-array", cause, fmt.Sprintf("view of %s at %s: hidden card %s is still reachable by re-slicing a redacted list to its capacity", who, ev, x))
+					return
+				}
+			}
+		}
 		for _, p := range cl.Players {
 			if p.Idx == v {
 				continue
